@@ -3004,7 +3004,7 @@ def delete_commented_code(source: str) -> str:
     root = core.parse(source)
     code_ranges = [
         core.get_charnos(node, source)
-        for node in core.walk(root, (ast.Constant(value=str), ast.JoinedStr))
+        for node in core.walk(root, (ast.Constant(value=(str, bytes)), ast.JoinedStr))
     ]
     removed_ranges = []
     for commented_block in matches:
